@@ -132,4 +132,33 @@ let do_enumdev toks =
      | _ -> "err")
   | _ -> "bad-case"
 
-let () = register "enumunion" do_enumunion; register "enumdev" do_enumdev; register "enumproc" do_enumproc; register "enumapi" do_enumapi; register "enummod" do_enummod; register "enumext" do_enumext
+(* enumset: several enumeration / bits types in one Modules set (same module, another module, in place, under a
+   typedef, in a grouping): the table of each type is the member loop run on ITS OWN member list - a function of that list
+   alone (Enum.run_members takes nothing else), whatever other types the set contains and in whatever order they are
+   resolved; every Process / GetModule reports an error iff some list has one.  Names are hex: arbitrary byte strings *)
+let parse_hex_members mems =
+  L.map (fun m -> match Str_.split_on_char ':' m with
+      | [n; v] -> (bytes_of_hex n, (if v = "~" then None else Some (bytes_of_hex v)))
+      | _ -> failwith "member") (Str_.split_on_char ',' mems)
+
+let do_enumset toks =
+  match toks with
+  | steps :: types ->
+    let n = Str_.length steps in
+    let rec go acc err = function
+      | [] -> if err then `Err else `Tables (L.rev acc)
+      | ty :: rest ->
+        if Str_.length ty < 4 || ty.[2] <> ';' then failwith "type" else
+        (match Enum.run_members (ty.[0] = 'b') (parse_hex_members (Str_.sub ty 3 (Str_.length ty - 3))) with
+         | Outcome.Ok (e, []) -> go (e :: acc) err rest
+         | Outcome.Ok _ | Outcome.Err -> go acc true rest
+         | Outcome.Panic -> `Panic
+         | Outcome.Unmodelled -> `Unmodelled) in
+    (match go [] false types with
+     | `Unmodelled -> "unmodelled"
+     | `Panic -> "panic"
+     | `Err -> "steps=" ^ Str_.make n 'e' ^ " err"
+     | `Tables es -> "steps=" ^ Str_.make n 'o' ^ " " ^ Str_.concat " | " (L.map views es))
+  | _ -> "bad-case"
+
+let () = register "enumset" do_enumset; register "enumunion" do_enumunion; register "enumdev" do_enumdev; register "enumproc" do_enumproc; register "enumapi" do_enumapi; register "enummod" do_enummod; register "enumext" do_enumext
